@@ -70,6 +70,42 @@ pub fn memo_bases(tier: Tier) -> Vec<(Grammar, Vec<String>)> {
     out
 }
 
+/// The roots of `memo_bases` over rules that can match the empty string (optional, closure, empty alternative):
+/// an evaluation that ends in an empty match is an evaluation like any other.
+pub fn memo_bases_nullable() -> Vec<(Grammar, Vec<String>)> {
+    let roots: Vec<Expr> = vec![
+        choice(vec![seq(vec![field("a", "A"), lit("x")]), seq(vec![field("a", "A"), lit("c")]), seq(vec![field("b", "B"), field("a", "A")])]),
+        choice(vec![seq(vec![and(rref("A")), field("a", "A"), lit("x")]), seq(vec![field("a", "A"), field("b", "B"), lit("c")]), seq(vec![field("b", "B"), lit("x")]), field("b", "B")]),
+        seq(vec![star(seq(vec![field("a", "A"), lit("x")])), opt(field("b", "B")), opt(field("a", "A")), opt(lit("c"))]),
+    ];
+    let a_bodies = vec![
+        opt(field("b", "B")),
+        opt(seq(vec![field("b", "B"), lit("c")])),
+        choice(vec![seq(vec![field("b", "B"), lit("c")]), seq(vec![])]),
+        seq(vec![opt(lit("c")), opt(field("b", "B"))]),
+        seq(vec![field("b", "B"), field("b", "B")]),
+    ];
+    let b_bodies = vec![lit("b"), opt(lit("b")), star(lit("b")), choice(vec![lit("bc"), seq(vec![])]), seq(vec![opt(lit("b")), opt(lit("c"))])];
+    let mut out = Vec::new();
+    for r in &roots {
+        for a in &a_bodies {
+            for b in &b_bodies {
+                let g = Grammar {
+                    rules: vec![
+                        Rule::normal("Root", vec![Directive::Export, Directive::NoSkipWs, Directive::Position], r.clone()),
+                        Rule::normal("A", vec![Directive::NoSkipWs, Directive::Position], a.clone()),
+                        Rule::normal("B", vec![Directive::NoSkipWs, Directive::String], b.clone()),
+                    ],
+                };
+                if wf::well_formed(&g) {
+                    out.push((g, vec!["Root".to_string(), "A".to_string(), "B".to_string()]));
+                }
+            }
+        }
+    }
+    out
+}
+
 pub fn with_memo(g: &Grammar, names: &[String], mask: u32) -> Grammar {
     let mut g2 = g.clone();
     for (i, n) in names.iter().enumerate() {
@@ -120,6 +156,39 @@ pub fn c05(tier: Tier) -> Vec<Case> {
         for (vi, mask) in subsets(names.len()).into_iter().enumerate() {
             let gv = with_memo(&g, &names, mask);
             b.add_variant(grp, vi, "memo-subsets", gv, inputs.clone(), &format!("mask{mask}"));
+        }
+    }
+    for (g, names) in memo_bases_nullable() {
+        let grp = b.new_group();
+        for (vi, mask) in subsets(names.len()).into_iter().enumerate() {
+            b.add_variant(grp, vi, "memo-subsets/nullable", with_memo(&g, &names, mask), inputs.clone(), &format!("mask{mask}"));
+        }
+    }
+    // everything a memoized body can begin with, in every spelling (case-insensitive literals written in either
+    // case, one or two characters, ranges, an upper-case literal); every alternative of A and B begins with a
+    // literal or range, and the inputs contain both cases
+    {
+        let inputs = InputSpec::Strings { alphabet: vec!['b', 'B', 'c', 'x'], max_len: if tier == Tier::Quick { 4 } else { 5 } };
+        let heads = vec![ilit("b"), ilit("B"), ilit("bc"), ilit("Bc"), range('a', 'c'), range('A', 'C'), lit("B")];
+        let root = choice(vec![seq(vec![field("a", "A"), lit("x")]), seq(vec![field("b", "B"), lit("c")]), seq(vec![field("b", "B"), field("a", "A")]), field("a", "A")]);
+        for h1 in &heads {
+            for h2 in &heads {
+                let g = Grammar {
+                    rules: vec![
+                        Rule::normal("Root", vec![Directive::Export, Directive::NoSkipWs, Directive::Position], root.clone()),
+                        Rule::normal("A", vec![Directive::NoSkipWs, Directive::Position], choice(vec![seq(vec![h1.clone(), opt(field("b", "B"))]), seq(vec![lit("c"), field("b", "B")])])),
+                        Rule::normal("B", vec![Directive::NoSkipWs, Directive::String], choice(vec![seq(vec![h2.clone(), opt(lit("c"))]), seq(vec![lit("x"), h2.clone()])])),
+                    ],
+                };
+                if !wf::well_formed(&g) {
+                    continue;
+                }
+                let names = vec!["Root".to_string(), "A".to_string(), "B".to_string()];
+                let grp = b.new_group();
+                for (vi, mask) in subsets(3).into_iter().enumerate() {
+                    b.add_variant(grp, vi, "memo-subsets/literal-heads", with_memo(&g, &names, mask), inputs.clone(), &format!("mask{mask}"));
+                }
+            }
         }
     }
     // @memoize together with a pure @check that refuses some values (chk_nob: values containing the letter b)
@@ -488,6 +557,17 @@ pub fn c06(tier: Tier) -> Vec<Case> {
         }
     }
     let inputs = memo_inputs(tier);
+    for (g, names) in memo_bases_nullable() {
+        for mask in subsets(names.len()) {
+            if mask == 0 {
+                continue;
+            }
+            let gv = with_probes(&with_memo(&g, &names, mask));
+            if b.add("memo-probes/nullable", gv, inputs.clone()) {
+                b.last().note = format!("mask{mask}");
+            }
+        }
+    }
     for (g, names) in memo_bases(tier) {
         for mask in subsets(names.len()) {
             if mask == 0 {
@@ -717,6 +797,30 @@ pub fn c07(tier: Tier) -> Vec<Case> {
                 ],
             };
             if wf::well_formed(&g) && b.add("leftrec/indirect", g, inputs_c.clone()) {
+                b.last().note = "recursive-first".into();
+            }
+        }
+    }
+    // (c') the way back to the rule goes through a body pulled in with `>` (directly, or one rule further down)
+    for b_body in [
+        seq(vec![bfield("l", "A"), lit("+"), field("r", "N")]),
+        choice(vec![seq(vec![bfield("l", "A"), lit("+"), field("r", "N")]), seq(vec![bfield("l", "A"), lit("!")])]),
+    ] {
+        for (a_body, c_rule) in [
+            (choice(vec![inc("B"), field("n", "N")]), None),
+            (choice(vec![seq(vec![inc("B"), opt(lit("!"))]), field("n", "N")]), None),
+            (choice(vec![field("c", "C"), field("n", "N")]), Some(Rule::normal("C", vec![Directive::Position, Directive::NoSkipWs], inc("B")))),
+            (choice(vec![seq(vec![inc("C"), lit("!")]), field("n", "N")]), Some(Rule::normal("C", vec![Directive::NoSkipWs], seq(vec![field("b", "B")])))),
+        ] {
+            let mut rules = vec![
+                Rule::normal("Root", vec![Directive::Export, Directive::Position, Directive::NoSkipWs], seq(vec![field("a", "A"), opt(Expr::Eoi)])),
+                Rule::normal("A", vec![Directive::Leftrec, Directive::Position, Directive::NoSkipWs], a_body.clone()),
+                Rule::normal("B", vec![Directive::Position, Directive::NoSkipWs], b_body.clone()),
+                n_rule(),
+            ];
+            rules.extend(c_rule);
+            let g = Grammar { rules };
+            if wf::well_formed(&g) && b.add("leftrec/indirect-through-include", g, inputs_c.clone()) {
                 b.last().note = "recursive-first".into();
             }
         }
